@@ -141,6 +141,8 @@ func TestC11(t *testing.T) {
 		var sharedExprs []hx.Expr
 		focusFn := rapid.SampledFrom(c11Builtins).Draw(t, "focusfn")
 		var refTabs []hx.Table
+		inListExtra := rapid.SampledFrom([]int{0, 0, 17, 20, 50, 115, 250}).Draw(t, "inlistextra")
+		inListSeed := rapid.Uint64().Draw(t, "inlistseed")
 		mkFamily := func(first bool) family {
 			root := hx.Build(base)
 			if root.Err != nil {
@@ -186,6 +188,16 @@ func TestC11(t *testing.T) {
 			f.aggs = []qframe.Aggregation{{Fn: "sum", Column: "i1"}, {Fn: "max", Column: "f1"}}
 			f.inInts = []int{7, -3, 64, 2, 0, 5, -1, 3, 1000, 1, -2, 8, 4, 3, -1000, 6}
 			f.inStrs = []string{"b", "ab", "a", "", "abc", "B", "zz", "A", "c", "ba", "aB", "b%", "Ab", "a b", "x"}
+			if inListExtra > 0 {
+				// lists beyond the sizes at which a set implementation may switch to another representation, unsorted
+				sm := hx.SplitMix(inListSeed)
+				for i := 0; i < inListExtra; i++ {
+					v := int(sm.Next()%2001) - 1000
+					f.inInts = append(f.inInts, v)
+					f.inStrs = append(f.inStrs, fmt.Sprintf("k%d", v))
+				}
+				f.inInts = f.inInts[:len(f.inInts):len(f.inInts)]
+			}
 			for _, c := range sharedClauses {
 				f.clauses = append(f.clauses, c.Build(hx.KindMap(f.tabs[5])))
 			}
